@@ -4,7 +4,7 @@ copies <worktree>/seed_out into /verif/seeded/<Cxx>_agent2 and completes meta.js
 import json, os, shutil, sys
 wt, pid, status, how = sys.argv[1:5]
 conf = sys.argv[5:8] if len(sys.argv) >= 8 else ["51 passed / 0 failed", "fails", "passes"]
-dst = "/verif/seeded/%s_agent2" % pid
+dst = "/verif/seeded/%s_%s" % (pid, os.environ.get("AGENT", "agent2"))
 if os.path.exists(dst):
     shutil.rmtree(dst)
 shutil.copytree(os.path.join(wt, "seed_out"), dst)
@@ -14,10 +14,10 @@ try:
 except Exception:
     meta = {}
 meta["property"] = pid
-meta["origin"] = ("independent sub-agent (second round: told which ideas had been tried, asked for "
+meta["origin"] = ("independent sub-agent (later round: told which changes had been tried, asked for "
                   "something different), only the property text and a scratch worktree")
 meta["confirmed_by_me"] = {"suite_with_patch": conf[0], "demo_with_patch": conf[1], "demo_without_patch": conf[2]}
 meta["detection"] = {"status": status, "how": how,
-                     "command": "tools/run_mutant.sh /verif/seeded/%s_agent2/patch.diff %s" % (pid, pid)}
+                     "command": "tools/run_mutant.sh /verif/seeded/%s_%s/patch.diff %s" % (pid, os.environ.get("AGENT", "agent2"), pid)}
 json.dump(meta, open(mp, "w"), indent=1)
 print("stored", dst)
